@@ -732,7 +732,40 @@ def s_last_now(ip, args, kwargs, node):
     return VInt(ip.st.clock_terms[-1], "dt")
 
 
-SPEC_LIB = {"last_now": VBuiltin("last_now", s_last_now), "contains": VBuiltin("contains", s_contains), "nonempty": VBuiltin("nonempty", s_nonempty), "nonempty_map": VBuiltin("nonempty_map", s_nonempty), "without": VBuiltin("without", s_without), "with_": VBuiltin("with_", s_with),
+def s_is_insert_partial(ip, args, kwargs, node):
+    """spec: x is functools.partial(<lst>.insert, <pos>, <item>) for the very list object lst"""
+    x, lst = args
+    ok = (isinstance(x, VPartial) and isinstance(x.fn, VPartial) and isinstance(x.fn.fn, VBuiltin)
+          and x.fn.fn.name == "list.insert" and x.fn.args and isinstance(x.fn.args[0], VSeq)
+          and isinstance(lst, VSeq) and x.fn.args[0].ref == lst.ref and len(x.args) == 2 and not x.kwargs)
+    return VBool(bool(ok))
+
+
+def s_partial_arg(ip, args, kwargs, node):
+    x, i = args
+    return x.args[ip.concrete_key(i)]
+
+
+def s_is_noop_callable(ip, args, kwargs, node):
+    x = args[0]
+    import ast as _ast
+    ok = isinstance(x, VLambda) and isinstance(x.node.body, _ast.Constant) and x.node.body.value is None \
+        and not x.node.args.args
+    return VBool(bool(ok))
+
+
+def s_seq_of(ip, args, kwargs, node):
+    """spec: the one-element sequence [x] (element type: opaque callables)"""
+    from .loops import coerce
+    ref = ip.st.new_ref()
+    et = ("func", "Callback")
+    ip.st.heap[(ref, "seq")] = z3.Unit(coerce(ip, args[0], ("opaque",)))
+    return VSeq(ref, et)
+
+
+SPEC_LIB = {"seq_of": VBuiltin("seq_of", s_seq_of), "is_insert_partial": VBuiltin("is_insert_partial", s_is_insert_partial),
+            "partial_arg": VBuiltin("partial_arg", s_partial_arg),
+            "is_noop_callable": VBuiltin("is_noop_callable", s_is_noop_callable), "last_now": VBuiltin("last_now", s_last_now), "contains": VBuiltin("contains", s_contains), "nonempty": VBuiltin("nonempty", s_nonempty), "nonempty_map": VBuiltin("nonempty_map", s_nonempty), "without": VBuiltin("without", s_without), "with_": VBuiltin("with_", s_with),
             "appended": VBuiltin("appended", s_appended),"dt_in_range": VBuiltin("dt_in_range", s_dt_in_range), "td_in_range": VBuiltin("td_in_range", s_td_in_range),
             "us": VBuiltin("us", s_us)}
 _orig_build = build_lib
